@@ -30,11 +30,15 @@ class Obligation:
 
 
 class State:
-    def __init__(self, pc: List[Any], env: Dict[str, V]):
+    def __init__(self, pc: List[Any], env: Dict[str, V], heap: Optional[Dict[str, List[Tuple[Any, V]]]] = None):
+        # heap: per field, the ordered list of writes (object term, value) made on this path.  A read of
+        # o.f is the store chain  ite(o == o_n, v_n, ... ite(o == o_1, v_1, F_f(o)))  -- alias-aware; fields
+        # never written are read from the uninterpreted field functions F_f (entry values).
         self.pc, self.env = pc, env
+        self.heap = heap if heap is not None else {}
 
     def fork(self, cond=None) -> "State":
-        s = State(list(self.pc), dict(self.env))
+        s = State(list(self.pc), dict(self.env), {k: list(v) for k, v in self.heap.items()})
         if cond is not None:
             s.pc.append(cond)
         return s
@@ -83,6 +87,7 @@ class Engine:
         self.axioms: List[Any] = []
         self.n_paths = 0
         self._rec_spec_funcs: Dict[str, Any] = {}
+        self.hints_used: set = set()
 
     # ------------------------------------------------------------------ util
     qdepth = 0
@@ -266,14 +271,18 @@ class Engine:
                 return c
         return None
 
-    def ev_clause(self, text: str, env: Dict[str, V]) -> V:
+    def ev_clause(self, text: str, env: Dict[str, V], heap: Optional[Dict] = None) -> V:
         node = ast.parse(text.strip(), mode="eval").body
-        st = State([], dict(env))
+        saved = getattr(self, "_cur_state", None)
+        if heap is None:
+            heap = saved.heap if saved is not None else {}
+        st = State([], dict(env), heap)
         self.spec_mode += 1
         try:
             return self.ev(node, st)
         finally:
             self.spec_mode -= 1
+            self._cur_state = saved
 
     def params_of(self, c, fnode=None) -> List[str]:
         if c.arg_order:
@@ -294,14 +303,14 @@ class Engine:
             raise Unsupported(f"call of {c.key}: missing args {missing} (defaults not modelled)")
         # pre@callsite
         if c.requires.strip() != "True":
-            pre = self.truthy(self.ev_clause(c.requires, env))
+            pre = self.truthy(self.ev_clause(c.requires, env, heap=st.heap))
             self.oblige(st, f"pre@L{lineno}:{c.qualname}", "pre@callsite", pre, lineno)
             if not self.spec_mode and not self.guards:
                 st.pc.append(pre)
         # exceptions the callee may raise propagate: the exception edge must be
         # infeasible here, or allowed by the caller's own raises clause
         for exc_name, cond in c.raises.items():
-            may = self.truthy(self.ev_clause(cond, env))
+            may = self.truthy(self.ev_clause(cond, env, heap=st.heap))
             self.safety(st, z3.Not(may), exc_name, lineno, f"callee-{c.qualname}")
         # decreases for recursion
         if c is self.c and not self.spec_mode and self.emit:
@@ -311,15 +320,22 @@ class Engine:
             m_caller = self.as_int(self.ev_clause(c.decreases, self.entry_env))
             self.oblige(st, f"decreases@L{lineno}", "decreases", z3.And(m_caller >= 0, m_callee < m_caller), lineno)
         if c.result_is is not None:
-            res = self.ev_clause(c.result_is, env)
+            res = self.ev_clause(c.result_is, env, heap=st.heap)
             return self.coerce(res, parse_type(c.returns)) if c.returns != "Any" else res
+        # the callee may write the listed fields of its `self`: havoc them, the ensures speaks about the new values
+        mods = (c.path_hints or {}).get("modifies", [])
+        if mods and not self.spec_mode and "self" in env and isinstance(env["self"], VRec):
+            obj = env["self"]
+            for f in mods:
+                ft = parse_type(self.reg.records[obj.cls].fields[f])
+                st.heap.setdefault(f"{obj.cls}.{f}", []).append((obj.t, self.fac.mk(ft, fresh_name(f"{obj.cls}.{f}.after"))))
         rt = parse_type(c.returns)
         res = self.fac.mk(rt, fresh_name(f"res_{c.qualname}"))
         facts = wf_facts(res)
         if c.ensures:
             env2 = dict(env)
             env2["result"] = res
-            facts.append(self.truthy(self.ev_clause(c.ensures_text(), env2)))
+            facts.append(self.truthy(self.ev_clause(c.ensures_text(), env2, heap=st.heap)))
         target = st.pc if not self.guards else st.pc
         for f in facts:
             if self.guards:
@@ -637,10 +653,12 @@ class Engine:
             if r and attr.startswith("__") and not attr.endswith("__") and f"_{base.cls}{attr}" in r.fields:
                 attr = f"_{base.cls}{attr}"
             if r and attr in r.fields:
-                return self.fac.field(base, attr)
+                return self.read_field(base, attr, st.heap)
             const = self.class_const(base.cls, attr)
             if const is not None: return const
             m = self.method_contract(base.cls, attr)
+            if m and m.is_property:
+                return self.call_contract(m, [base], st, node.lineno)
             if m: return VFunc(contract=m, name=f"{base.cls}.{attr}", env={"__self__": base})
             raise Unsupported(f"attribute {base.cls}.{attr} at L{node.lineno}")
         raise Unsupported(f"attribute .{node.attr} on {base!r} at L{node.lineno}")
@@ -703,9 +721,54 @@ class Engine:
             return VSeq("str", 1, lambda _i, el=el: el, TInt())
         return el
 
+    def read_field(self, obj: VRec, f: str, heap) -> V:
+        val = self.fac.field(obj, f)
+        for t, v in heap.get(f"{obj.cls}.{f}", []):
+            val = self.merge(obj.t == t, v, val)
+        return val
+
+    def resolve_field(self, cls: str, attr: str) -> Optional[str]:
+        r = self.reg.records.get(cls)
+        if r is None:
+            return None
+        if attr.startswith("__") and not attr.endswith("__") and f"_{cls}{attr}" in r.fields:
+            return f"_{cls}{attr}"
+        return attr if attr in r.fields else None
+
     def bind_target(self, target, val: V, st: State, lineno: int):
         if isinstance(target, ast.Name):
             st.env[target.id] = val
+            return
+        if isinstance(target, ast.Attribute):
+            base = self.ev(target.value, st)
+            if not isinstance(base, VRec):
+                raise Unsupported(f"attribute store on {base!r} at L{lineno}")
+            f = self.resolve_field(base.cls, target.attr)
+            if f is None:
+                raise Unsupported(f"store to undeclared field {base.cls}.{target.attr} at L{lineno}")
+            allowed = (self.c.path_hints or {}).get("modifies", [])
+            is_self = isinstance(target.value, ast.Name) and target.value.id == "self"
+            if not (is_self and (self.c.qualname.split("@")[0].endswith("__init__") or f in allowed)):
+                # frame: only `self` fields listed in `modifies` (all fields in a constructor) may be written
+                self.oblige(st, f"frame@L{lineno}:{base.cls}.{f}", "frame", z3.BoolVal(False), lineno,
+                            detail="store outside the contract's modifies clause")
+            ft = parse_type(self.reg.records[base.cls].fields[f])
+            if not self.c.qualname.split("@")[0].endswith("__init__") and f not in getattr(self.reg.records[base.cls], "mutable", []):
+                raise Unsupported(f"store to immutable field {base.cls}.{f} outside the constructor")
+            st.heap.setdefault(f"{base.cls}.{f}", []).append((base.t, self.coerce(val, ft)))
+            return
+        if isinstance(target, ast.Subscript) and isinstance(target.value, ast.Name) and target.value.id in st.env \
+                and not isinstance(target.slice, ast.Slice):
+            # element store into a *local* list (never aliased: checked by the caller of the engine via `local_lists`)
+            name = target.value.id
+            if name not in (self.c.path_hints or {}).get("local_lists", []):
+                raise Unsupported(f"subscript store to `{name}` (not declared as a local, unaliased list)")
+            old = self.to_seq(st.env[name])
+            i = self.as_int(self.ev(target.slice, st))
+            n = old.length
+            self.safety(st, z3.And(i >= -n, i < n), "IndexError", lineno, "store-index")
+            j = self.norm_index(i, n)
+            st.env[name] = VSeq(old.kind, n, lambda k, old=old, j=j, val=val: self.merge(k == j, val, old.at(k)), old.elt)
             return
         if isinstance(target, (ast.Tuple, ast.List)):
             elts = target.elts
@@ -885,6 +948,22 @@ class Engine:
             return self.join(sep, self.ev(node.args[0], st), st, node.lineno)
         if any(isinstance(a, ast.Starred) for a in node.args):
             raise Unsupported("starred call argument")
+        if isinstance(node.func, ast.Attribute) and isinstance(node.func.value, ast.Name) \
+                and node.func.value.id in (self.c.path_hints or {}).get("local_lists", []) \
+                and node.func.value.id in st.env and node.func.attr in ("append", "pop"):
+            name = node.func.value.id
+            old = self.to_seq(st.env[name])
+            if node.func.attr == "append" and len(node.args) == 1:
+                x = self.ev(node.args[0], st)
+                n = old.length
+                st.env[name] = VSeq(old.kind, n + 1, lambda k, old=old, n=n, x=x: self.merge(k == n, x, old.at(k)), old.elt)
+                return VNone()
+            if node.func.attr == "pop" and not node.args:
+                n = old.length
+                self.safety(st, n >= 1, "IndexError", node.lineno, "pop-empty")
+                st.env[name] = VSeq(old.kind, n - 1, old.at, old.elt)
+                return old.at(n - 1)
+            raise Unsupported("list method form")
         f = self.ev(node.func, st)
         if isinstance(f, VFunc) and f.builtin in ("any", "all") and len(node.args) == 1 \
                 and isinstance(node.args[0], (ast.GeneratorExp, ast.ListComp)):
@@ -1005,47 +1084,82 @@ class Engine:
     def apply_spec(self, s, args: List[V]) -> V:
         if len(args) != len(s.params):
             raise Unsupported(f"spec {s.name} arity")
-        if s.recursive:
+        heap = self._cur_state.heap if getattr(self, "_cur_state", None) is not None else {}
+        if s.recursive or getattr(s, "opaque", False):
             return self.apply_rec_spec(s, args)
         env = dict(zip(s.params, args))
         for p, tname in s.types.items():
             if p in env:
                 env[p] = self.coerce(env[p], parse_type(tname))
         self.spec_mode += 1
+        saved = getattr(self, "_cur_state", None)
         try:
             node = ast.parse(s.body.strip(), mode="eval").body
-            return self.ev(node, State([], env))
+            return self.ev(node, State([], env, heap))
         finally:
             self.spec_mode -= 1
+            self._cur_state = saved
+
+    def spec_reads(self, name: str, seen=None) -> set:
+        seen = seen if seen is not None else set()
+        if name in seen or name not in self.reg.specs:
+            return set()
+        seen.add(name)
+        out = set()
+        for n in ast.walk(ast.parse(self.reg.specs[name].body.strip(), mode="eval")):
+            if isinstance(n, ast.Attribute):
+                out.add(n.attr)
+            elif isinstance(n, ast.Call) and isinstance(n.func, ast.Name):
+                out |= self.spec_reads(n.func.id, seen)
+        return out
 
     def apply_rec_spec(self, s, args: List[V]) -> V:
         """recursive spec function over scalar arguments: an uninterpreted
         function plus its defining axiom (quantified over the arguments)."""
         zargs = []
+        fixed = []          # sequence-valued arguments are fixed parameters of the function symbol
         for a in args:
             if isinstance(a, (VRec, VAny, VInt, VBool, VNStr)):
                 zargs.append(a.t)
+            elif isinstance(a, (VSeq, VTup)):
+                fixed.append(self._vkey(a))
             else:
-                raise Unsupported("recursive spec over non-scalar argument")
+                raise Unsupported("recursive spec over unsupported argument")
         rng = {"Bool": z3.BoolSort(), "Int": z3.IntSort()}[s.returns]
-        fn = z3.Function("spec." + s.name, *[z.sort() for z in zargs], rng)
-        if s.name not in self._rec_spec_funcs:
-            self._rec_spec_funcs[s.name] = fn
+        # one function symbol per heap version of the fields the spec (transitively) reads: the axiom of
+        # each version is stated under exactly the writes made so far on this path
+        heap = self._cur_state.heap if getattr(self, "_cur_state", None) is not None else {}
+        reads = self.spec_reads(s.name)
+        rel = {k: v for k, v in heap.items() if v and k.split(".", 1)[1] in reads}
+        hsig = ""
+        if rel:
+            import hashlib
+            txt = ";".join(f"{k}:" + ",".join(t.sexpr() + "=" + self._vkey(v) for t, v in ws) for k, ws in sorted(rel.items()))
+            hsig = "@h" + hashlib.sha1(txt.encode()).hexdigest()[:8]
+        sym = "spec." + s.name + hsig + ("[" + "|".join(fixed) + "]" if fixed else "")
+        fn = z3.Function(sym, *[z.sort() for z in zargs], rng)
+        if sym not in self._rec_spec_funcs:
+            self._rec_spec_funcs[sym] = fn
             bound = []
             env = {}
             for p, a in zip(s.params, args):
+                if isinstance(a, (VSeq, VTup)):
+                    env[p] = a
+                    continue
                 bv = z3.Const(fresh_name("ax_" + p), a.t.sort())
                 bound.append(bv)
                 env[p] = type(a)(a.cls, bv) if isinstance(a, VRec) else type(a)(bv)
             self.spec_mode += 1
+            saved = getattr(self, "_cur_state", None)
             try:
                 node = ast.parse(s.body.strip(), mode="eval").body
-                body = self.ev(node, State([], env))
+                body = self.ev(node, State([], env, {k: list(v) for k, v in heap.items()}))
             finally:
                 self.spec_mode -= 1
+                self._cur_state = saved
             lhs = fn(*bound)
             rhs = self.truthy(body) if s.returns == "Bool" else self.as_int(body)
-            self.axioms.append(z3.ForAll(bound, lhs == rhs))
+            self.axioms.append(z3.ForAll(bound, lhs == rhs, patterns=[lhs]) if bound else lhs == rhs)
         r = fn(*zargs)
         return VBool(r) if s.returns == "Bool" else VInt(r)
 
@@ -1067,11 +1181,11 @@ class Engine:
                         raise Unsupported(f"constructor {cls}: missing arg {p}")
                     env[p] = self.coerce(self.ev_clause(d, {}), parse_type(init.types[p]))
             if init.requires.strip() != "True":
-                pre = self.truthy(self.ev_clause(init.requires, env))
+                pre = self.truthy(self.ev_clause(init.requires, env, heap=st.heap))
                 self.oblige(st, f"pre@L{lineno}:{cls}.__init__", "pre@callsite", pre, lineno)
             if init.ensures:
                 env["result"] = obj
-                fact = self.truthy(self.ev_clause(init.ensures_text(), env))
+                fact = self.truthy(self.ev_clause(init.ensures_text(), env, heap=st.heap))
                 st.pc.append(z3.Implies(z3.And(*self.guards), fact) if self.guards else fact)
             return obj
         # dataclass-style: positional args are the fields in declaration order
@@ -1108,7 +1222,20 @@ class Engine:
         m = getattr(self, "st_" + type(s).__name__, None)
         if m is None:
             raise Unsupported(f"statement {type(s).__name__} at L{s.lineno}")
-        return m(s, st)
+        outs = m(s, st)
+        hints = (self.c.path_hints or {}).get("hints_after", [])
+        if hints and not isinstance(s, (ast.For, ast.While, ast.If)):
+            text = ast.unparse(s)
+            for h in hints:
+                if text.startswith(h["after"]):
+                    self.hints_used.add(h["after"])
+                    for o in outs:
+                        if o.kind == "fall":
+                            # proof hint (like a Dafny `assert`): proved here, then available as a fact
+                            cl = self.truthy(self.ev_clause(h["clause"], o.st.env, heap=o.st.heap))
+                            self.oblige(o.st, f"hint@L{s.lineno}", "hint", cl, s.lineno, detail=h["clause"][:80])
+                            o.st.pc.append(cl)
+        return outs
 
     def st_Pass(self, s, st): return [Outcome("fall", st)]
 
@@ -1197,11 +1324,23 @@ class Engine:
             for x in ast.walk(n):
                 if isinstance(x, ast.Name) and isinstance(x.ctx, ast.Store) and x.id not in out:
                     out.append(x.id)
+                # in-place mutation of a local list: x.append(..), x.pop(), x[i] = ..
+                if isinstance(x, ast.Call) and isinstance(x.func, ast.Attribute) and isinstance(x.func.value, ast.Name) \
+                        and x.func.attr in ("append", "pop", "extend", "insert", "remove", "clear", "sort", "reverse") \
+                        and x.func.value.id not in out:
+                    out.append(x.func.value.id)
+                if isinstance(x, ast.Subscript) and isinstance(x.ctx, (ast.Store, ast.Del)) \
+                        and isinstance(x.value, ast.Name) and x.value.id not in out:
+                    out.append(x.value.id)
         return out
 
-    def loop_spec(self, lineno: int) -> Dict[str, str]:
-        k = self.loop_ordinal
-        self.loop_ordinal += 1
+    def loop_spec(self, lineno: int, node=None) -> Dict[str, str]:
+        # loops are numbered in source order (not execution order: a loop after an `if` is executed once per path)
+        if not hasattr(self, "_loop_ids"):
+            loops = [n for n in ast.walk(self.fnode) if isinstance(n, (ast.For, ast.While))]
+            loops.sort(key=lambda n: (n.lineno, n.col_offset))
+            self._loop_ids = {id(n): i for i, n in enumerate(loops)}
+        k = self._loop_ids[id(node)]
         spec = self.c.loops.get(k)
         if spec is None:
             raise Unsupported(f"loop #{k} at L{lineno} has no invariant")
@@ -1210,7 +1349,7 @@ class Engine:
     def st_For(self, s, st):
         if s.orelse:
             raise Unsupported("for-else")
-        spec = self.loop_spec(s.lineno)
+        spec = self.loop_spec(s.lineno, s)
         it = self.iter_seq(s.iter, st)
         kname = spec.get("index", "_k")
         inv_text = spec["invariant"]
@@ -1219,7 +1358,7 @@ class Engine:
             env = dict(state.env)
             env[kname] = VInt(kval)
             env["_iter_len"] = VInt(it.length)
-            return self.truthy(self.ev_clause(inv_text, env))
+            return self.truthy(self.ev_clause(inv_text, env, heap=state.heap))
         # inv-init
         self.oblige(st, f"inv-init@L{s.lineno}", "inv-init", inv(st, z3.IntVal(0)), s.lineno)
         # havoc
@@ -1237,9 +1376,14 @@ class Engine:
         self.bind_target(s.target, self.elem(it, k), body_st, s.lineno)
         outs: List[Outcome] = []
         after: List[State] = []
+        heap_sig = {k_: len(v_) for k_, v_ in body_st.heap.items()}
         for o in self.exec_block(s.body, body_st):
+            if {k_: len(v_) for k_, v_ in o.st.heap.items()} != heap_sig:
+                raise Unsupported("field writes inside a loop body")
             if o.kind in ("fall", "continue"):
                 self.oblige(o.st, f"inv-step@L{s.lineno}", "inv-step", inv(o.st, k + 1), s.lineno)
+                self.obls.append(Obligation(f"cover-loop@L{s.lineno}", "cover", o.st.pc, z3.BoolVal(False), s.lineno,
+                                            expect="sat", detail=f"loop-body@L{s.lineno}"))
             elif o.kind == "break":
                 after.append(o.st)
             else:
@@ -1252,12 +1396,12 @@ class Engine:
     def st_While(self, s, st):
         if s.orelse:
             raise Unsupported("while-else")
-        spec = self.loop_spec(s.lineno)
+        spec = self.loop_spec(s.lineno, s)
         inv_text = spec["invariant"]
         var_text = spec.get("variant")
 
         def inv(state: State):
-            return self.truthy(self.ev_clause(inv_text, state.env))
+            return self.truthy(self.ev_clause(inv_text, state.env, heap=state.heap))
         self.oblige(st, f"inv-init@L{s.lineno}", "inv-init", inv(st), s.lineno)
         mod = [n for n in self.assigned_names(s.body) if n in st.env]
         hv = st.fork()
@@ -1274,6 +1418,8 @@ class Engine:
         for o in self.exec_block(s.body, body_st):
             if o.kind in ("fall", "continue"):
                 self.oblige(o.st, f"inv-step@L{s.lineno}", "inv-step", inv(o.st), s.lineno)
+                self.obls.append(Obligation(f"cover-loop@L{s.lineno}", "cover", o.st.pc, z3.BoolVal(False), s.lineno,
+                                            expect="sat", detail=f"loop-body@L{s.lineno}"))
                 if v0 is not None:
                     v1 = self.as_int(self.ev_clause(var_text, o.st.env))
                     self.oblige(o.st, f"variant@L{s.lineno}", "variant", z3.And(v0 >= 0, v1 < v0), s.lineno)
@@ -1343,6 +1489,20 @@ class Engine:
             idx += 1
             if o.kind == "return":
                 env2 = dict(self.entry_env)
+                if c.qualname.split("@")[0].endswith("__init__") and isinstance(self.entry_env.get("self"), VRec):
+                    # the constructed object, as callers see it: a fresh object whose fields have the final
+                    # values written by the constructor (fields never written stay unconstrained)
+                    old_self = self.entry_env["self"]
+                    new_self = self.fac.mk(TRec(old_self.cls), fresh_name("constructed"))
+                    for key, writes in o.st.heap.items():
+                        cls_, fld = key.split(".", 1)
+                        if cls_ != old_self.cls:
+                            continue
+                        if any(not is_true(t == old_self.t) for t, _ in writes):
+                            raise Unsupported("constructor writes fields of another object")
+                        o.st.pc.append(self.eq(self.fac.field(new_self, fld), self.read_field(old_self, fld, o.st.heap)))
+                    env2["self"] = new_self
+                    o.st.heap = {}
                 rt = parse_type(c.returns) if c.returns != "Any" else None
                 val = self.coerce(o.value, rt) if rt is not None else o.value
                 env2["result"] = val
@@ -1355,7 +1515,8 @@ class Engine:
                     self.obls.append(Obligation(f"post#{idx}@L{o.lineno}", "post", o.st.pc, z3.And(*goal_parts), o.lineno))
                 for cname, ctext in c.ensures_items():
                     nm = f"post#{idx}@L{o.lineno}" + (f":{cname}" if cname else "")
-                    self.obls.append(Obligation(nm, "post", o.st.pc, self.truthy(self.ev_clause(ctext, env2)), o.lineno))
+                    self.obls.append(Obligation(nm, "post", o.st.pc,
+                                                self.truthy(self.ev_clause(ctext, env2, heap=o.st.heap)), o.lineno))
                 o.value = val
             else:
                 allowed = c.raises.get(o.exc)
@@ -1379,6 +1540,32 @@ def select_fragment(fnode, frag: Dict[str, Any], eng: Engine) -> List[ast.stmt]:
             out.append(s)
         eng.dropped.append(f"fragment: statements from the first `{frag['stmt']}` on are not part of this obligation set")
         return out
+    if rule == "attr_slice":
+        # keep exactly the top-level statements that store to one of the listed attributes of `self`
+        # (mangled or not); every other statement is dropped and must not store to them (checked here)
+        attrs = set(frag["attrs"])
+
+        def stores(stmt):
+            out = set()
+            for x in ast.walk(stmt):
+                if isinstance(x, ast.Attribute) and isinstance(x.ctx, (ast.Store, ast.Del)) \
+                        and isinstance(x.value, ast.Name) and x.value.id == "self":
+                    out.add(x.attr)
+            return out
+        keep, dropped = [], []
+        for s in fnode.body:
+            st_ = stores(s)
+            if st_ & attrs:
+                if st_ - attrs:
+                    raise Unsupported(f"statement at L{s.lineno} stores to sliced and unsliced attributes")
+                keep.append(s)
+            elif isinstance(s, ast.Expr) and isinstance(s.value, ast.Constant):
+                continue
+            else:
+                dropped.append(f"L{s.lineno}")
+        eng.dropped.append(f"fragment attr_slice{sorted(attrs)}: statements at {', '.join(dropped)} dropped "
+                           "(they do not store to the sliced attributes)")
+        return keep
     raise Unsupported(f"fragment rule {rule}")
 
 
